@@ -68,7 +68,7 @@ theorem locateObject_mem {ss : Schemas} {p n : String} {o : Obj}
 /-- what `noConstrainedAlias` says about one located object -/
 theorem alias_plain {ss : Schemas} (hs : noConstrainedAlias ss = true) {p n : String} {o : Obj}
     (h : Schemas.locateObject ss p n = some o) :
-    o.ty.isStruct = true ∨ plainTy plainFuel ss (.ref p n {}) = true := by
+    (o.ty.isStruct = true ∨ resolvesToStructTy ss (.ref p n {}) = true) ∨ plainTy plainFuel ss (.ref p n {}) = true := by
   obtain ⟨s, h1, h2, h3⟩ := locateObject_mem h
   simp only [noConstrainedAlias, List.all_eq_true] at hs
   have := hs s h1 (n, o) h3
@@ -312,9 +312,18 @@ theorem rtc_false_no_violations (ss : Schemas) (hs : noConstrainedAlias ss = tru
           | some o =>
             cases alias_plain hs hl with
             | inl hst =>
-              have : resolveRefs ss (.ref p n m) = some o.ty := by
-                rw [resolveRefs_ref_located ss m hl]; exact resolveToType_struct ss _ hst
-              cases hty : o.ty <;> simp_all [rtc, Ty.isStruct]
+              cases hst with
+              | inl hst =>
+                have : resolveRefs ss (.ref p n m) = some o.ty := by
+                  rw [resolveRefs_ref_located ss m hl]; exact resolveToType_struct ss _ hst
+                cases hty : o.ty <;> simp_all [rtc, Ty.isStruct]
+              | inr hst =>
+                simp only [resolvesToStructTy] at hst
+                rw [resolveRefs_ref_located ss _ hl, ← resolveRefs_ref_located ss m hl] at hst
+                simp only [rtc] at hr
+                cases hrr : resolveRefs ss (.ref p n m) with
+                | none => simp [hrr] at hst
+                | some rt => cases rt <;> simp_all
             | inr hp =>
               have hv : violations (fuel + 1) ss (.ref p n {}) v = .ok ls := by
                 simp only [violations, hu]
